@@ -120,6 +120,46 @@ func registerSyncMap(e *Engine) {
 	})
 }
 
+// sync.Pool: Put keeps the object, Get hands out the most recently put one (the pool may reuse an
+// object at once — the case that matters for use-after-release), else calls New.
+func registerSyncPool(e *Engine) {
+	e.reg("(*sync.Pool).Get", func(in *interp, fr *frame, a []value) value {
+		p := a[0].(*value)
+		in.sch.yield("sync.Pool.Get")
+		if in.syncPools == nil {
+			in.syncPools = map[*value][]value{}
+		}
+		if l := in.syncPools[p]; len(l) > 0 {
+			v := l[len(l)-1]
+			in.syncPools[p] = l[:len(l)-1]
+			if in.race != nil {
+				in.race.acquire(in.sch.cur, p)
+			}
+			return v
+		}
+		st := (*p).(structure)
+		if newFn := st[len(st)-1]; !in.isNil(newFn) {
+			return in.call(fr, 0, newFn, nil)
+		}
+		return iface{}
+	})
+	e.reg("(*sync.Pool).Put", func(in *interp, fr *frame, a []value) value {
+		p := a[0].(*value)
+		in.sch.yield("sync.Pool.Put")
+		if in.syncPools == nil {
+			in.syncPools = map[*value][]value{}
+		}
+		if in.isNil(a[1]) {
+			return nil
+		}
+		in.syncPools[p] = append(in.syncPools[p], a[1])
+		if in.race != nil {
+			in.race.release(in.sch.cur, p)
+		}
+		return nil
+	})
+}
+
 func registerSync(e *Engine) {
 	lock := func(in *interp, fr *frame, a []value) value {
 		p := a[0].(*value)
